@@ -84,6 +84,15 @@ func c11Build(r *rand.Rand, dir string) *c11Env {
 		}
 	}
 	nl.Edges = kept
+	// realistic package URLs in several spellings (the purl lookups otherwise never match anything)
+	for _, nd := range nl.Nodes {
+		if r.Intn(2) == 0 {
+			if nd.Identifiers == nil {
+				nd.Identifiers = map[int32]string{}
+			}
+			nd.Identifiers[int32(sbom.SoftwareIdentifierType_PURL)] = gen.Pick(r, c11Purls)
+		}
+	}
 	md := &sbom.Metadata{}
 	gen.Populate(r, md.ProtoReflect(), o)
 	md.Id = "urn:uuid:doc-" + fmt.Sprint(r.Intn(1000))
@@ -126,6 +135,8 @@ func c11Build(r *rand.Rand, dir string) *c11Env {
 	return env
 }
 
+var c11Purls = []string{"pkg:npm/left-pad@1.0.0", "pkg:/npm/left-pad@1.0.0", "pkg:/apk/wolfi/bash@4.0.1", "pkg:apk/wolfi/bash@4.0.1", "pkg:deb/debian/bash@5?arch=amd64", "pkg:/deb/debian/bash@5", "pkg:golang/x/y@v1", "PKG:NPM/Upper@2", "pkg:npm/%40scope/name@1", "pkg://npm/x@1"}
+
 type c11Op struct {
 	name string
 	fn   func(e *c11Env, r *rand.Rand)
@@ -153,7 +164,11 @@ func c11Ops() []c11Op {
 		{"NodeList.GetNodeByID", func(e *c11Env, r *rand.Rand) { nl(e).GetNodeByID(gen.Pick(r, e.ids)) }},
 		{"NodeList.GetNodesByName", func(e *c11Env, r *rand.Rand) { nl(e).GetNodesByName(node(e, r).Name) }},
 		{"NodeList.GetNodesByIdentifier", func(e *c11Env, r *rand.Rand) { nl(e).GetNodesByIdentifier("purl", node(e, r).Identifiers[1]) }},
-		{"NodeList.GetNodesByPurlType", func(e *c11Env, r *rand.Rand) { nl(e).GetNodesByPurlType("npm") }},
+		{"NodeList.GetNodesByPurlType", func(e *c11Env, r *rand.Rand) {
+			for _, t := range []string{"npm", "apk", "deb", "golang", ""} {
+				nl(e).GetNodesByPurlType(t)
+			}
+		}},
 		{"NodeList.GetRootNodes", func(e *c11Env, r *rand.Rand) { nl(e).GetRootNodes(); e.nl2.GetRootNodes() }},
 		{"Document.GetRootNodes", func(e *c11Env, r *rand.Rand) { e.doc.GetRootNodes() }},
 		{"NodeList.GetEdgeByType", func(e *c11Env, r *rand.Rand) { nl(e).GetEdgeByType(gen.Pick(r, e.ids), sbom.Edge_contains) }},
